@@ -98,6 +98,75 @@ def narrow (b : Nat) : Nat :=
 def isSNaN32 (b : Nat) : Bool :=
   b / 8388608 % 256 == 255 && b % 8388608 != 0 && b % 8388608 < 4194304
 
+/-! ## integer → float casts, UTF-8 (serde's lenient primitive visitors) -/
+
+/-- `n as f64` / `n as f32` for `n ≥ 0`: round to nearest even (`mbits` = 52 / 23, `ebias` = 1023 / 127);
+no 64-bit integer overflows either format -/
+def natToFloat (mbits ebias n : Nat) : Nat :=
+  if n = 0 then 0
+  else
+    let len := Nat.log2 n + 1
+    if len ≤ mbits + 1 then
+      (ebias + len - 1) * 2 ^ mbits + (n * 2 ^ (mbits + 1 - len) - 2 ^ mbits)
+    else
+      (ebias + len - 1) * 2 ^ mbits + (rne n (len - (mbits + 1)) - 2 ^ mbits)
+
+def intToF64 (i : Int) : Nat :=
+  if i < 0 then 9223372036854775808 + natToFloat 52 1023 i.natAbs else natToFloat 52 1023 i.natAbs
+
+def intToF32 (i : Int) : Nat :=
+  if i < 0 then 2147483648 + natToFloat 23 127 i.natAbs else natToFloat 23 127 i.natAbs
+
+/-- does the integer have a 64-bit representation (`U64` / `I64`)?  128-bit representations are
+`visit_i128` / `visit_u128`, which the 8…64-bit and float visitors do not accept -/
+def fits64 (i : Int) : Bool := decide (-9223372036854775808 ≤ i ∧ i ≤ 18446744073709551615)
+
+def utf8EncodeChar (c : Char) : List Nat :=
+  let n := c.toNat
+  if n < 128 then [n]
+  else if n < 2048 then [192 + n / 64, 128 + n % 64]
+  else if n < 65536 then [224 + n / 4096, 128 + n / 64 % 64, 128 + n % 64]
+  else [240 + n / 262144, 128 + n / 4096 % 64, 128 + n / 64 % 64, 128 + n % 64]
+
+def utf8Encode (s : Str) : List Nat := s.flatMap utf8EncodeChar
+
+def isCont (b : Nat) : Bool := 128 ≤ b && b < 192
+
+def consOpt (c : Char) : Option Str → Option Str
+  | some s => some (c :: s)
+  | none => none
+
+/-- `str::from_utf8`: strict (no overlong forms, no surrogates, nothing above U+10FFFF) -/
+def utf8Decode : List Nat → Option Str
+  | [] => some []
+  | b0 :: rest =>
+    if b0 < 128 then consOpt (Char.ofNat b0) (utf8Decode rest)
+    else if 194 ≤ b0 ∧ b0 < 224 then
+      match rest with
+      | b1 :: rest1 =>
+        if isCont b1 then consOpt (Char.ofNat ((b0 - 192) * 64 + (b1 - 128))) (utf8Decode rest1) else none
+      | _ => none
+    else if 224 ≤ b0 ∧ b0 < 240 then
+      match rest with
+      | b1 :: b2 :: rest2 =>
+        let lo := if b0 = 224 then 160 else 128
+        let hi := if b0 = 237 then 160 else 192
+        if lo ≤ b1 ∧ b1 < hi ∧ isCont b2 then
+          consOpt (Char.ofNat ((b0 - 224) * 4096 + (b1 - 128) * 64 + (b2 - 128))) (utf8Decode rest2)
+        else none
+      | _ => none
+    else if 240 ≤ b0 ∧ b0 < 245 then
+      match rest with
+      | b1 :: b2 :: b3 :: rest3 =>
+        let lo := if b0 = 240 then 144 else 128
+        let hi := if b0 = 244 then 144 else 192
+        if lo ≤ b1 ∧ b1 < hi ∧ isCont b2 ∧ isCont b3 then
+          consOpt (Char.ofNat ((b0 - 240) * 262144 + (b1 - 128) * 4096 + (b2 - 128) * 64 + (b3 - 128)))
+            (utf8Decode rest3)
+        else none
+      | _ => none
+    else none
+
 /-! ## map keys -/
 
 mutual
@@ -198,6 +267,10 @@ def allStrKeys : List (V × V) → Bool
   | (.str _ _, _) :: rest => allStrKeys rest
   | _ => false
 
+def findBytes (n : List Nat) : List (List Nat) → Option Nat
+  | [] => none
+  | m :: ms => if m = n then some 0 else (findBytes n ms).map (· + 1)
+
 def findName (n : Str) : List Str → Option Nat
   | [] => none
   | m :: ms => if m = n then some 0 else (findName n ms).map (· + 1)
@@ -225,6 +298,42 @@ def mapMR {α β : Type} (f : α → R β) : List α → R (List β)
       | .error e => .error e
       | .ok ys => .ok (y :: ys)
 
+/-- one element of a byte sequence (`u8::deserialize`) -/
+def deByte : V → R Nat
+  | .int _ i => if 0 ≤ i ∧ i ≤ 255 then .ok i.toNat else .error .err
+  | .obj _ => .error .unmodelled
+  | _ => .error .err
+
+/-- the derived field identifier: `visit_str` / `visit_bytes` by name, `visit_u64` by index (unknown
+names and indices are ignored fields), any other key is a type error -/
+def fieldOfKey (names : List Str) : V → R (Option Nat)
+  | .str n _ => .ok (findName n names)
+  | .bytes b => .ok (findBytes b (names.map utf8Encode))
+  | .int true i => .ok (if i.toNat < names.length then some i.toNat else Option.none)
+  | .obj _ => .error .unmodelled
+  | _ => .error .err
+
+/-- the entries of a map with the field each key names (derived `visit_map`, first pass) -/
+def resolveKeys (names : List Str) : List (V × V) → R (List (Option Nat × V))
+  | [] => .ok []
+  | (k, v) :: rest =>
+    match fieldOfKey names k with
+    | .error e => .error e
+    | .ok i =>
+      match resolveKeys names rest with
+      | .error e => .error e
+      | .ok l => .ok ((i, v) :: l)
+
+/-- two entries name the same field (`duplicate_field`) -/
+def dupSlots : List (Option Nat × V) → Bool
+  | [] => false
+  | (some i, _) :: rest => rest.any (fun p => p.1 == some i) || dupSlots rest
+  | (Option.none, _) :: rest => dupSlots rest
+
+def findSlot (i : Nat) : List (Option Nat × V) → Option V
+  | [] => Option.none
+  | (j, v) :: rest => if j = some i then some v else findSlot i rest
+
 def pairR {α β : Type} : R α → R β → R (α × β)
   | .ok a, .ok b => .ok (a, b)
   | .error e, _ => .error e
@@ -247,19 +356,19 @@ def de : Shape → V → R D
     | _ => .error .err
   | .int _ lo hi, v =>
     match v with
-    | .int _ i => if lo ≤ i ∧ i ≤ hi then .ok (.int i) else .error .err   -- visit_u64 / visit_i64 range check
+    | .int _ i => if lo ≤ i ∧ i ≤ hi ∧ fits64 i = true then .ok (.int i) else .error .err   -- visit_u64 / visit_i64 range check
     | .obj _ => .error .unmodelled
     | _ => .error .err
   | .f32, v =>
     match v with
     | .f64 b => .ok (.f32 (narrow b))                                      -- visit_f64: `v as f32`
-    | .int _ _ => .error .unmodelled
+    | .int _ i => if fits64 i then .ok (.f32 (intToF32 i)) else .error .err   -- visit_u64 / visit_i64: `v as f32`
     | .obj _ => .error .unmodelled
     | _ => .error .err
   | .f64, v =>
     match v with
     | .f64 b => .ok (.f64 b)
-    | .int _ _ => .error .unmodelled
+    | .int _ i => if fits64 i then .ok (.f64 (intToF64 i)) else .error .err
     | .obj _ => .error .unmodelled
     | _ => .error .err
   | .char, v =>
@@ -270,14 +379,17 @@ def de : Shape → V → R D
   | .str, v =>
     match v with
     | .str s _ => .ok (.str s)
-    | .bytes _ => .error .unmodelled
+    | .bytes b =>                                                          -- visit_bytes: str::from_utf8
+      match utf8Decode b with
+      | some s => .ok (.str s)
+      | Option.none => .error .err
     | .obj _ => .error .unmodelled
     | _ => .error .err
   | .bytes, v =>
     match v with
     | .bytes b => .ok (.bytes b)
-    | .str _ _ => .error .unmodelled
-    | .seq _ _ => .error .unmodelled
+    | .str s _ => .ok (.bytes (utf8Encode s))                              -- ByteBuf::visit_str
+    | .seq _ xs => mapOk D.bytes (mapMR deByte xs)                         -- ByteBuf::visit_seq of u8
     | .obj _ => .error .unmodelled
     | _ => .error .err
   | .unit, v =>
@@ -328,7 +440,10 @@ def de : Shape → V → R D
     | .map kvs =>
       if allStrKeys kvs then
         mapOk D.list (deFields names ss kvs)
-      else .error .unmodelled
+      else
+        match resolveKeys names kvs with
+        | .error e => .error e
+        | .ok slots => if dupSlots slots then .error .err else mapOk D.list (deSlots names ss 0 slots)
     | .seq _ xs =>                                                         -- derived visit_seq
       mapOk D.list (deList ss xs)
     | .obj _ => .error .unmodelled
@@ -343,7 +458,12 @@ def de : Shape → V → R D
       match findName n names with
       | some i => deVariant vs i i (some payload)
       | Option.none => .error .err
-    | .map [(.int _ _, _)] => .error .unmodelled                           -- variant index
+    | .map [(.int true i, payload)] =>                                     -- variant index (visit_u64)
+      if i.toNat < vs.length then deVariant vs i.toNat i.toNat (some payload) else .error .err
+    | .map [(.bytes b, payload)] =>                                        -- visit_bytes
+      match findBytes b (names.map utf8Encode) with
+      | some i => deVariant vs i i (some payload)
+      | Option.none => .error .err
     | .map _ => .error .err
     | .obj _ => .error .unmodelled
     | _ => .error .err
@@ -363,6 +483,15 @@ def deFields : List Str → List Shape → List (V × V) → R (List D)
     | Option.none =>
       if isOpt s then consR (.ok .none) (deFields ns ss kvs) else .error .err
   | _, _, _ => .ok []
+/-- derived `visit_map`, second pass: every field from its slot; a missing field is an error unless
+it is an `Option` -/
+def deSlots : List Str → List Shape → Nat → List (Option Nat × V) → R (List D)
+  | _ :: ns, s :: ss, j, slots =>
+    match findSlot j slots with
+    | some x => consR (de s x) (deSlots ns ss (j + 1) slots)
+    | Option.none =>
+      if isOpt s then consR (.ok .none) (deSlots ns ss (j + 1) slots) else .error .err
+  | _, _, _, _ => .ok []
 /-- the variant chosen by the identifier (`orig` = its index, reported in the result) -/
 def deVariant : List VShape → Nat → Nat → Option V → R D
   | v :: _, 0, orig, payload =>
@@ -394,7 +523,10 @@ def deV : VShape → Option V → R D
     | some (.map kvs) =>
       if allStrKeys kvs then
         mapOk D.list (deFields names ss kvs)
-      else .error .unmodelled
+      else
+        match resolveKeys names kvs with
+        | .error e => .error e
+        | .ok slots => if dupSlots slots then .error .err else mapOk D.list (deSlots names ss 0 slots)
     | some (.obj _) => .error .unmodelled
     | _ => .error .err
 end
@@ -451,7 +583,7 @@ def distinctKeys : List V → Bool
 mutual
 def wf : Shape → D → Bool
   | .bool, .bool _ => true
-  | .int _ lo hi, .int i => decide (lo ≤ i ∧ i ≤ hi)
+  | .int _ lo hi, .int i => decide (lo ≤ i ∧ i ≤ hi) && fits64 i
   | .f32, .f32 b => decide (b < 4294967296) && !isSNaN32 b
   | .f64, .f64 _ => true
   | .char, .char _ => true
